@@ -66,6 +66,7 @@ MODULE_DEPS = {
     "MCIter.tla": ["MoveGenIter.tla", "MoveGenImpl.tla", "MCIter.tla"],
     "MCCache.tla": ["CacheTable.tla", "MCCache.tla"],
     "MCText.tla": ["Geometry.tla", "Rules.tla", "Text.tla", "MCText.tla"],
+    "MCGeom.tla": ["Geometry.tla", "MCGeom.tla"],
 }
 
 
